@@ -6,7 +6,7 @@ import re
 from hypothesis import strategies as st
 
 from .. import gen
-from ..cells import build, cells, cells_of_desc, fmt_of_atts, show, text_of
+from ..cells import build_any, cells, cells_of_desc, fmt_of_atts, show, text_of
 from ..common import Res, call, exc_str, hyp_campaign
 
 PROP = "C15"
@@ -28,8 +28,9 @@ ASSUMPTIONS = [
 ]
 SHARDS = {"quick": 4, "thorough": 16}
 
-SEPS = [",", " ", "ab", "\n", "::", "a", "x", ", ", "B"]
-PATTERNS = [r"\s+", r"[,;]+", r"ab?", r"\d", r"a|B"]
+SEPS = [",", " ", "ab", "\n", "::", "a", "x", ", ", "B", ".", "a|B", "[,;]+", "a.b"]
+PATTERNS = [r"\s+", r"[,;]+", r"ab?", r"\d", r"a|B", r"a.b", r"\."]
+BOTH = ["a|B", "[,;]+", "a.b", "B", ","]  # valid as literal separator and as regular expression
 
 
 def items_of(c):
@@ -89,7 +90,7 @@ def delegated_rows(s):
 def run_case(case):
     res = Res()
     desc = case["desc"]
-    f = build(desc, case.get("build", "chunks"))
+    f = build_any(desc, case.get("build", "chunks"), case.get("obs", 0))
     src = cells_of_desc(desc)
     s = text_of(src)
     fm = {c[1:] for c in src}
@@ -131,6 +132,15 @@ def run_case(case):
         evals += 1
         got, err = call(lambda: f.split(pat, regex=True))
         pieces_check("split_regex", [pat], got, err, re.split(pat, s), piece_ranges_regex(s, pat))
+    # the same string once as a literal separator and once as a regular expression, in an order that depends on the case
+    order = [(b, r) for b in BOTH for r in ((False, True) if (len(s) + len(b)) % 2 else (True, False))]
+    for b, as_regex in order:
+        evals += 1
+        got, err = call(lambda: f.split(b, regex=as_regex))
+        if as_regex:
+            pieces_check("split_regex", [b], got, err, re.split(b, s), piece_ranges_regex(s, b))
+        else:
+            pieces_check("split", [b], got, err, s.split(b), piece_ranges_sep(s, b))
     for keep in (False, True):
         evals += 1
         got, err = call(lambda: f.splitlines(keep))
@@ -158,7 +168,7 @@ def run_case(case):
 
     n = len(s)
     for m in ("ljust", "rjust"):
-        for w in (0, max(n - 1, 0), n, n + 1, n + 3):
+        for w in (0, max(n - 1, 0), n, n + 1, n + 3) + ((n + 1500, n + 1024, n + 1025) if case.get("big_width") else ()):
             for fill in (None, "*", " "):
                 evals += 1
                 args = (w,) if fill is None else (w, fill)
@@ -214,12 +224,15 @@ def run_case(case):
     return res
 
 
-ALPHA = "abAB,; \n\t1:"
+ALPHA = "abAB,; \n\t1:.|"
 
 
 def strategy():
     run = st.tuples(gen.text(ALPHA, 0, 5), gen.atts()).map(list)
-    return st.fixed_dictionaries({"desc": st.lists(run, min_size=1, max_size=4), "build": st.sampled_from(["chunks", "fmtstr"])})
+    long_run = st.tuples(gen.text(ALPHA, 10, 90), gen.atts()).map(list)
+    descs = st.one_of(st.lists(run, min_size=1, max_size=4), st.lists(run, min_size=1, max_size=4), st.lists(run, min_size=1, max_size=4),
+                      st.lists(run, min_size=8, max_size=25), st.lists(long_run, min_size=1, max_size=3))
+    return st.fixed_dictionaries({"desc": descs, "build": gen.BUILDS, "obs": gen.OBS, "big_width": st.sampled_from([False] * 7 + [True])})
 
 
 def campaign(col, tier, seed, shard, nshards):
